@@ -19,3 +19,25 @@ func VerifCycleCheck(graph *BuildGraph) []BuildLabel {
 	}
 	return labels
 }
+
+// VerifCycleDetector keeps one detector across passes, as a build does
+// (state.progress.cycleDetector lives for the whole build).
+type VerifCycleDetector struct{ c cycleDetector }
+
+// NewVerifCycleDetector returns a detector for the graph.
+func NewVerifCycleDetector(graph *BuildGraph) *VerifCycleDetector {
+	return &VerifCycleDetector{c: cycleDetector{graph: graph}}
+}
+
+// Check runs one pass and returns the labels of the reported cycle, or nil.
+func (d *VerifCycleDetector) Check() []BuildLabel {
+	err := d.c.Check()
+	if err == nil {
+		return nil
+	}
+	labels := make([]BuildLabel, len(err.Cycle))
+	for i, t := range err.Cycle {
+		labels[i] = t.Label
+	}
+	return labels
+}
